@@ -19,6 +19,7 @@ type Val struct {
 	HStruct types.Type // the struct type owning the field arrays
 	HPath   string
 	Proto   string // protocol obeyed by this function value (callbacks, yield functions)
+	Subj    []*Val // stream values: the subjects the producer was created for
 }
 
 // FnVal is a known function value (closure literal or method value).
